@@ -98,6 +98,11 @@ def integrate_instances(tier, prop):
             out.append(dict(id="integrate-euler-n-%s-N2-two-calls" % ("dense" if dense else "nodense"), kind="integrate", family="euler", events=["n"], dense=dense,
                             N=2, max_reports=3, two_calls=True, budget=b))
     if prop in ("C07", "C08"):
+        # forward without events, then back to the start time with events
+        for dense in (True, False):
+            out.append(dict(id="integrate-euler-n-%s-N2-reversal" % ("dense" if dense else "nodense"), kind="integrate", family="euler", events=["n"], dense=dense, N=2,
+                            max_reports=2, reversal=True, budget=b))
+    if prop in ("C07", "C08"):
         # two calls; between them the user changes the direction attribute of the same event function object
         out.append(dict(id="integrate-euler-n-dense-N2-two-calls-flip-direction", kind="integrate", family="euler", events=["n"], dense=True, N=2,
                         max_reports=2, two_calls=True, flip_direction=True, budget=b))
